@@ -127,6 +127,9 @@ type c06Step struct {
 	SignFault int `json:"signer_fails_at,omitempty"`
 	// ReqSubject: the (unsigned) request carries <saml:Subject><saml:NameID> naming this principal: a wish of the requester, never the authenticated identity
 	ReqSubject string `json:"request_subject_nameid,omitempty"`
+	// ReqPolicy: the request's NameIDPolicy/@Format ("-": the SP leaves its AuthnNameIDFormat unset): the requester's wish; how the session's
+	// principal is labelled is a matter of the session
+	ReqPolicy string `json:"request_nameid_policy,omitempty"`
 }
 
 // ---------------------------------------------------------------- registry / sessions
@@ -380,7 +383,7 @@ func genEgress(g *Rng, tier string) *Plan {
 	k := c06Knobs{
 		MaxIssueDelayMs: Pick(g, int64(1000), 7000, 90_000, 660_000, 7_200_000),
 		MaxClockSkewMs:  Pick(g, int64(0), 1000, 180_000, 1_020_000),
-		KeyMode:         Pick(g, "key", "key", "signer"),
+		KeyMode:         Pick(g, "key", "key", "signer", "both"),
 		SigMethod:       Pick(g, "", "", dsig.RSASHA1SignatureMethod, dsig.RSASHA256SignatureMethod, dsig.RSASHA256SignatureMethod, dsig.RSASHA384SignatureMethod, dsig.RSASHA512SignatureMethod),
 		Intermediates:   g.PickW(6, 2, 2),
 		Registry:        Pick(g, "exact", "exact", "casefold"),
@@ -407,7 +410,7 @@ func genEgress(g *Rng, tier string) *Plan {
 		k.Sessions = append(k.Sessions, s)
 	}
 	p := &Plan{Knobs: mustJSON(k)}
-	n := 1 + g.PickW(3, 4, 2, 1)
+	n := 1 + g.PickW(2, 4, 3, 1)
 	mid, mcs := k.MaxIssueDelayMs, k.MaxClockSkewMs
 	for i := 0; i < n; i++ {
 		st := c06Step{Kind: []string{"sso", "lib", "idp_initiated"}[g.PickW(5, 3, 2)], SP: g.Intn(nsp), Session: g.Intn(nses), Binding: Pick(g, "redirect", "post"), Relay: "rs" + strconv.Itoa(i)}
@@ -480,13 +483,17 @@ func genEgress(g *Rng, tier string) *Plan {
 		if st.Kind == "lib" && g.Bool(0.3) {
 			st.SignFault = 1 + g.Intn(2) // takes effect when the IdP signs through an external signer
 		}
+		if st.Kind != "idp_initiated" {
+			st.ReqPolicy = Pick(g, "", "", "-", "urn:oasis:names:tc:SAML:1.1:nameid-format:emailAddress", "urn:oasis:names:tc:SAML:2.0:nameid-format:persistent",
+				"urn:oasis:names:tc:SAML:1.1:nameid-format:X509SubjectName", "urn:oasis:names:tc:SAML:2.0:nameid-format:transient", "urn:oasis:names:tc:SAML:1.1:nameid-format:unspecified")
+		}
 		if st.Kind != "idp_initiated" && g.Bool(0.2) {
 			st.ReqSubject = Pick(g, "admin@example.com", marker("nameid", (st.Session+1)%nses))
 		}
 		if len(p.Steps) > 0 && g.Bool(0.2) {
 			// an operator reconfigures the live IdP object between two emissions
 			st.Reconf = Pick(g, "default", dsig.RSASHA1SignatureMethod, dsig.RSASHA256SignatureMethod, dsig.RSASHA384SignatureMethod, dsig.RSASHA512SignatureMethod)
-			st.ReconfMode = Pick(g, "", "", "key", "signer")
+			st.ReconfMode = Pick(g, "", "", "key", "signer", "both")
 		}
 		p.Steps = append(p.Steps, mustJSON(st))
 	}
@@ -635,9 +642,13 @@ func execEgress(t *testing.T, p *Plan) *Result {
 		vd := ms(k.ValidDurMs)
 		idp.ValidDuration = &vd
 	}
-	if k.KeyMode == "signer" {
+	switch k.KeyMode {
+	case "signer":
 		idp.Signer = c06Signer{idpKey.Key, signFault}
-	} else {
+	case "both":
+		// the deployment moved to an external signer and left the previous private key configured: "if signer is set, use it instead of the private key"
+		idp.Signer, idp.Key = c06Signer{idpKey.Key, signFault}, rsaKeys[4].Key
+	default:
 		idp.Key = idpKey.Key
 	}
 	for i := 0; i < k.Intermediates && i < 2; i++ {
@@ -657,6 +668,7 @@ func execEgress(t *testing.T, p *Plan) *Result {
 		strs = append(strs, own)
 	}
 
+	nameFmt := map[int]string{} // session without a format of its own -> the NameID Format first seen
 	for si, raw := range p.Steps {
 		st := decode[c06Step](raw)
 		if st.SP < 0 || st.SP >= len(k.SPs) || st.Session < 0 || st.Session >= len(sessions) {
@@ -675,6 +687,9 @@ func execEgress(t *testing.T, p *Plan) *Result {
 				}
 			}
 			switch st.ReconfMode {
+			case "both":
+				k.KeyMode = "both"
+				idp.Signer, idp.Key = c06Signer{idpKey.Key, signFault}, rsaKeys[4].Key
 			case "signer":
 				k.KeyMode = "signer"
 				idp.Signer, idp.Key = c06Signer{idpKey.Key, signFault}, nil
@@ -718,6 +733,13 @@ func execEgress(t *testing.T, p *Plan) *Result {
 				ent = c06EntityOtherCase(st.SP)
 			}
 			spv := newSP(c06SPBase(st.SP), rsaKeys[1+st.SP], ent, idpMD)
+			switch st.ReqPolicy {
+			case "":
+			case "-":
+				spv.AuthnNameIDFormat = ""
+			default:
+				spv.AuthnNameIDFormat = saml.NameIDFormat(st.ReqPolicy)
+			}
 			var wireErr error
 			var pan any
 			var zone *time.Location
@@ -982,8 +1004,24 @@ func execEgress(t *testing.T, p *Plan) *Result {
 		if sub == nil {
 			return bad("wrong-scope", "assertion/no-subject", "Subject", "none", "")
 		}
-		if nid := sub.SelectElement("NameID"); nid == nil || nid.Text() != sessions[st.Session].NameID {
+		nid := sub.SelectElement("NameID")
+		if nid == nil || nid.Text() != sessions[st.Session].NameID {
 			return bad("wrong-identity", "assertion/nameid", "session "+strconv.Itoa(st.Session)+" name id", c06Text(nid), "")
+		}
+		// the label on the name identifier: the session's when it has one; otherwise whatever the IdP uses, but the same for
+		// every request of this run (it is the session's principal that is labelled, not the requester's wish)
+		gotFmt := nid.SelectAttrValue("Format", "")
+		if sf := sessions[st.Session].NameIDFormat; sf != "" {
+			if gotFmt != sf {
+				return bad("wrong-identity", "assertion/nameid-format", sf, gotFmt, "")
+			}
+		} else if prev, seen := nameFmt[st.Session]; seen && prev != gotFmt {
+			return bad("wrong-identity", "assertion/nameid-format-follows-request", prev+" (as for this session's other request)", gotFmt, "request policy "+st.ReqPolicy)
+		} else {
+			if seen {
+				res.probe("nameid-format-compared-across-requests")
+			}
+			nameFmt[st.Session] = gotFmt
 		}
 		var bearer *etree.Element
 		for _, sc := range sub.SelectElements("SubjectConfirmation") {
